@@ -47,11 +47,14 @@ func (s verifDeltaStream) Context() context.Context                        { ret
 func (s verifDeltaStream) SendMsg(m any) error                             { return nil }
 func (s verifDeltaStream) RecvMsg(m any) error                             { return nil }
 
-var verifUniverse = []string{"a", "b", "c"}
+var verifUniverse = []string{"a", "b", "c", "d"}
+
+// quick: 3 resource names, thorough: 4
+func verifUniverseN() int { return 3 + vp.Tier() }
 
 // verifGen is an arbitrary generator: it produces any subset of the name universe.
 type verifGen struct {
-	produce     [3]bool // which names exist now
+	produce     [4]bool // which names exist now
 	deltaAware  bool
 	usedDelta   bool
 	incremental bool
@@ -63,7 +66,7 @@ type verifGen struct {
 func (g verifGen) gen(w *model.WatchedResource) model.Resources {
 	*g.calls++
 	res := model.Resources{}
-	for i, n := range verifUniverse {
+	for i, n := range verifUniverse[:verifUniverseN()] {
 		if !g.produce[i] {
 			continue
 		}
@@ -85,10 +88,10 @@ func (g verifDeltaGen) GenerateDeltas(proxy *model.Proxy, req *model.PushRequest
 	return g.gen(w), g.deleted, model.XdsLogDetails{Incremental: g.incremental}, g.usedDelta, nil
 }
 
-func verifSubset(p string) (sets.String, [3]bool) {
+func verifSubset(p string) (sets.String, [4]bool) {
 	s := sets.New[string]()
-	var in [3]bool
-	for i, n := range verifUniverse {
+	var in [4]bool
+	for i, n := range verifUniverse[:verifUniverseN()] {
 		if vp.Choice(p+"."+n, 2) == 1 {
 			s.Insert(n)
 			in[i] = true
@@ -108,7 +111,7 @@ func VerifC03DeltaPushEquivalence() {
 	wild := verifIsWildcardType(typeURL)
 	W, inW := verifSubset("watched") // server's record of what the client has / subscribes to
 	H, inH := verifSubset("held")    // what the delta client actually holds
-	for i := range verifUniverse {
+	for i := range verifUniverse[:verifUniverseN()] {
 		vp.Assume(!inH[i] || inW[i]) // invariant: the client holds nothing the server has no record of
 	}
 	_, inG := verifSubset("exists")
@@ -145,7 +148,7 @@ func VerifC03DeltaPushEquivalence() {
 	vp.Assert(sort.StringsAreSorted(resp.RemovedResources), "removed-names-are-sorted")
 	// reference clients
 	sotwHolds := sets.New[string]() // SotW root types replace; non-root types hold the watched names that exist
-	for i, n := range verifUniverse {
+	for i, n := range verifUniverse[:verifUniverseN()] {
 		if inG[i] && (wild || inW[i]) {
 			sotwHolds.Insert(n)
 		}
@@ -156,7 +159,7 @@ func VerifC03DeltaPushEquivalence() {
 	} else {
 		vp.Assert(verifSameSet(deltaHolds, sotwHolds), "delta-client-holds-what-sotw-client-holds")
 		// everything that ceased to exist is explicitly removed
-		for i, n := range verifUniverse {
+		for i, n := range verifUniverse[:verifUniverseN()] {
 			if inH[i] && !inG[i] {
 				vp.Assert(removed.Contains(n), "ceased-resources-are-removed")
 			}
@@ -177,12 +180,12 @@ func VerifC03DeltaAwareBookkeeping() {
 	W, _ := verifSubset("watched")
 	_, inG := verifSubset("changed")
 	var deleted []string
-	for _, n := range verifUniverse {
+	for _, n := range verifUniverse[:verifUniverseN()] {
 		if vp.Choice("deleted."+n, 2) == 1 {
 			deleted = append(deleted, n)
 		}
 	}
-	for i, n := range verifUniverse {
+	for i, n := range verifUniverse[:verifUniverseN()] {
 		for _, d := range deleted {
 			vp.Assume(!(d == n && inG[i])) // a generator does not both send and delete a name
 		}
@@ -204,7 +207,7 @@ func VerifC03DeltaAwareBookkeeping() {
 	}
 	resp := sent[0]
 	want := W.Copy().DeleteAll(deleted...)
-	for i, n := range verifUniverse {
+	for i, n := range verifUniverse[:verifUniverseN()] {
 		if inG[i] {
 			want.Insert(n)
 		}
